@@ -53,3 +53,9 @@ func verifLemmaSegmentPathDistinct(prefix string, streamID string, a uint64, b u
 func verifLemmaPartPathDistinct(prefix string, streamID string, a uint64, b uint64) (string, string) {
 	return partPath(prefix, streamID, a), partPath(prefix, streamID, b)
 }
+
+// C03 / C04 / C05: the accessors the playlist generators and the specifications read a segment / part through
+// return the stored fields (EXTINF = end - start, the listed URI = the registered path).
+func verifLemmaAccessors(f *muxerSegmentFMP4, m *muxerSegmentMPEGTS, p *muxerPart, g muxerGap) (time.Duration, time.Duration, time.Duration, time.Duration, string, string) {
+	return f.getDuration(), m.getDuration(), p.getDuration(), g.getDuration(), f.getPath(), m.getPath()
+}
